@@ -936,8 +936,40 @@ def gen_geo():
                                "DateCreation": "2020-01-02T02:04:05Z", "DateModification": "2021-06-01T00:00:00Z"}))
 
 
+def gen_pag4():
+    # :left / :right / :first / :blank rules with different MARGINS (same size), side breaks with blank pages
+    css = ("@page { size: 220px 150px; margin: 10px; @bottom-center { content: \"pg\" counter(page) \"of\" counter(pages); font-family: ahem; font-size: 8px; line-height: 8px } }\n"
+           "@page :left { margin-left: 30px; margin-right: 10px }\n@page :right { margin-left: 10px; margin-right: 30px }\n@page :first { margin-top: 40px }\n@page :blank { margin: 5px }\n"
+           + BASE + "p { orphans: 1; widows: 1 }\n" + PROBE_CSS)
+    body, flow, forced = [], [], []
+    wi = 1
+    spec = [(14, None), (20, "left"), (9, "right"), (30, "left"), (12, "left"), (16, "right"), (8, None)]
+    for i, (k, brk) in enumerate(spec):
+        ws = words("w", k, wi); wi += k; flow += ws
+        attrs = ('style="break-before: %s"' % brk) if brk else ""
+        body.append(para(ws, attrs, 3 if i in (1, 4) else None))
+        if brk:
+            forced.append(dict(word=ws[0], side=brk))
+    scenario("pag-22", "pag", doc(css, "\n".join(body)),
+             expect=dict(flows={"main": flow}, margin=True, page_w=220, page_h=150, conserve=True, geometry=True, line_height=12, forced=forced,
+                         page_margins={"left": [10, 10, 10, 30], "right": [10, 30, 10, 10], "first": [40, 30, 10, 10], "blank-left": [5, 5, 5, 5], "blank-right": [5, 5, 5, 5]}))
+
+    # long paragraphs with bottom padding / border, orphans = widows = 1: every page ends in the middle of a paragraph
+    # and must be filled to the last line that fits
+    for n, (H, pad, bor) in enumerate([(150, 10, 0), (126, 0, 3), (170, 14, 2)], start=23):
+        css = page_css(220, H, 10) + BASE + "p { orphans: 1; widows: 1; padding-bottom: %dpx; border-bottom: %dpx solid black; margin: 0 0 6px 0 }\n" % (pad, bor)
+        body, flow, paras = [], [], []
+        wi = 1
+        for k in (70, 95, 40, 120, 66):
+            ws = words("w", k, wi); wi += k; flow += ws; paras.append(ws)
+            body.append(para(ws))
+        scenario("pag-%02d" % n, "pag", doc(css, "\n".join(body)),
+                 expect=dict(flows={"main": flow}, margin=True, page_w=220, page_h=H, conserve=True, geometry=True, fits_page=True, line_height=12, paras=paras, orphans=1, widows=1, fill_pages=True))
+
+
 def main():
     gen_pag()
+    gen_pag4()
     gen_geo()
     gen_pag2()
     gen_pag3()
